@@ -781,7 +781,10 @@ class SessionManager:
         '''
         self._tx_hashes_lookups += 1
         tx_hashes = self._tx_hashes_cache.get(height)
-        if tx_hashes:
+        # During a reorg the blocks being backed up stay in the cache until _handle_chain_reorgs
+        # has run.  Don't serve a height the DB no longer has: fall through to the DB read,
+        # which refuses it.
+        if tx_hashes and height <= self.db.state.height:
             self._tx_hashes_hits += 1
             return tx_hashes, 0.1
 
